@@ -9,34 +9,40 @@ Q = 1  # scale knobs
 PLANS = {
     "C01": {"quick": [seq("seq-mixed", 240000), seq("seq-inval", 120000), seq("seq-long", 3000)],
             "thorough": [seq("seq-mixed", 3000000), seq("seq-inval", 1500000), seq("seq-expiry", 800000), seq("seq-long", 60000)]},
-    "C03": {"quick": [seq("seq-mixed", 240000), seq("seq-expiry", 120000), seq("seq-inval", 80000), seq("seq-long", 3000)],
-            "thorough": [seq("seq-mixed", 3000000), seq("seq-expiry", 1500000), seq("seq-inval", 1000000), seq("seq-long", 60000)]},
-    "C04": {"quick": [seq("seq-mixed", 240000), seq("seq-policy", 120000), seq("seq-long", 3000)],
-            "thorough": [seq("seq-mixed", 3000000), seq("seq-policy", 1500000), seq("seq-long", 60000)]},
-    "C05": {"quick": [seq("seq-expiry", 300000), seq("seq-mixed", 100000)],
-            "thorough": [seq("seq-expiry", 4000000), seq("seq-mixed", 1000000), seq("seq-long", 30000)]},
-    "C06": {"quick": [seq("seq-expiry", 300000), seq("seq-mixed", 100000)],
-            "thorough": [seq("seq-expiry", 4000000), seq("seq-mixed", 1000000), seq("seq-long", 30000)]},
-    "C07": {"quick": [seq("seq-inval", 300000), seq("seq-mixed", 100000)],
-            "thorough": [seq("seq-inval", 4000000), seq("seq-mixed", 1000000), seq("seq-long", 30000)]},
-    "C10": {"quick": [seq("seq-mixed", 240000), seq("seq-inval", 100000), seq("seq-expiry", 60000), seq("seq-long", 3000)],
-            "thorough": [seq("seq-mixed", 3000000), seq("seq-inval", 1000000), seq("seq-expiry", 1000000), seq("seq-long", 60000)]},
-    "C11": {"quick": [seq("seq-mixed", 240000), seq("seq-inval", 100000), seq("seq-callback", 60000), seq("seq-long", 3000)],
-            "thorough": [seq("seq-mixed", 3000000), seq("seq-inval", 1000000), seq("seq-callback", 600000), seq("seq-long", 60000)]},
+    "C03": {"quick": [seq("seq-mixed", 240000), seq("seq-expiry", 120000), seq("seq-inval", 80000), seq("seq-long", 3000), seq("thr-mixed", 60000), seq("thr-strict", 40000)],
+            "thorough": [seq("seq-mixed", 3000000), seq("seq-expiry", 1500000), seq("seq-inval", 1000000), seq("seq-long", 60000), seq("thr-mixed", 900000), seq("thr-strict", 600000)]},
+    "C04": {"quick": [seq("seq-mixed", 240000), seq("seq-policy", 120000), seq("seq-long", 3000), seq("thr-mixed", 40000), seq("burst", 3000)],
+            "thorough": [seq("seq-mixed", 3000000), seq("seq-policy", 1500000), seq("seq-long", 60000), seq("thr-mixed", 600000), seq("burst", 50000)]},
+    "C05": {"quick": [seq("seq-expiry", 300000), seq("seq-mixed", 100000), seq("thr-expiry", 60000)],
+            "thorough": [seq("seq-expiry", 4000000), seq("seq-mixed", 1000000), seq("seq-long", 30000), seq("thr-expiry", 900000)]},
+    "C06": {"quick": [seq("seq-expiry", 300000), seq("seq-mixed", 100000), seq("thr-expiry", 60000)],
+            "thorough": [seq("seq-expiry", 4000000), seq("seq-mixed", 1000000), seq("seq-long", 30000), seq("thr-expiry", 900000)]},
+    "C07": {"quick": [seq("seq-inval", 300000), seq("seq-mixed", 100000), seq("thr-mixed", 80000)],
+            "thorough": [seq("seq-inval", 4000000), seq("seq-mixed", 1000000), seq("seq-long", 30000), seq("thr-mixed", 1200000)]},
+    "C10": {"quick": [seq("seq-mixed", 240000), seq("seq-inval", 100000), seq("seq-expiry", 60000), seq("seq-long", 3000), seq("thr-mixed", 60000)],
+            "thorough": [seq("seq-mixed", 3000000), seq("seq-inval", 1000000), seq("seq-expiry", 1000000), seq("seq-long", 60000), seq("thr-mixed", 900000), seq("burst", 20000)]},
+    "C11": {"quick": [seq("seq-mixed", 240000), seq("seq-inval", 100000), seq("seq-callback", 60000), seq("seq-long", 3000), seq("thr-mixed", 60000)],
+            "thorough": [seq("seq-mixed", 3000000), seq("seq-inval", 1000000), seq("seq-callback", 600000), seq("seq-long", 60000), seq("thr-mixed", 900000), seq("burst", 20000)]},
     "C12": {"quick": [seq("seq-policy", 400000)],
             "thorough": [seq("seq-policy", 6000000)]},
     "C13": {"quick": [seq("seq-policy", 400000)],
             "thorough": [seq("seq-policy", 6000000)]},
     "C15": {"quick": [seq("pair", 300000)],
             "thorough": [seq("pair", 4000000)]},
-    "C16": {"quick": [seq("seq-mixed", 240000), seq("seq-expiry", 100000)],
-            "thorough": [seq("seq-mixed", 3000000), seq("seq-expiry", 1000000)]},
-    "C08": {"quick": [seq("seq-mixed", 200000), seq("seq-long", 4000), seq("seq-callback", 60000), seq("seq-policy", 60000)],
-            "thorough": [seq("seq-mixed", 2000000), seq("seq-long", 60000), seq("seq-callback", 600000), seq("seq-policy", 600000)]},
+    "C16": {"quick": [seq("seq-mixed", 240000), seq("seq-expiry", 100000), seq("thr-iter", 100000), seq("thr-mixed", 40000)],
+            "thorough": [seq("seq-mixed", 3000000), seq("seq-expiry", 1000000), seq("thr-iter", 1500000), seq("thr-mixed", 600000)]},
+    "C02": {"quick": [seq("thr-mixed", 160000), seq("thr-strict", 80000), seq("thr-expiry", 40000)],
+            "thorough": [seq("thr-mixed", 2400000), seq("thr-strict", 1200000), seq("thr-expiry", 600000), seq("thr-iter", 300000)]},
+    "C09": {"quick": [seq("thr-mixed", 100000), seq("thr-iter", 30000), seq("burst", 5000)],
+            "thorough": [seq("thr-mixed", 1500000), seq("thr-iter", 400000), seq("burst", 80000)]},
+    "C08": {"quick": [seq("seq-mixed", 200000), seq("seq-long", 4000), seq("seq-callback", 60000), seq("seq-policy", 60000), seq("thr-mixed", 80000), seq("thr-iter", 30000), seq("burst", 2000)],
+            "thorough": [seq("seq-mixed", 2000000), seq("seq-long", 60000), seq("seq-callback", 600000), seq("seq-policy", 600000), seq("thr-mixed", 1200000), seq("thr-iter", 400000), seq("burst", 40000)]},
 }
 
 RULES = {
     "C01": "runs are generated from (VERIF_SEED, population, run index); distinct = hash of (config, op trace, schedule trace); non-trivial = the run contains a lookup of a key that was previously inserted and since then updated, invalidated, evicted or seen before (i.e. not a lookup of a never-written key)",
+    "C02": "threads, programs, config and the scheduling policy are generated from (VERIF_SEED, population, run index); distinct = hash of (config, programs, schedule actually taken); non-trivial = at least two threads operated on one key with overlapping invoke/return intervals and at least one preemption happened inside an operation",
+    "C09": "distinct = hash of (config, programs, schedule actually taken); non-trivial = the write channel was found full at least once, or a thread was parked at a switch point inside Inner::sync while another thread executed at least one step",
     "C03": "distinct = hash of (config, op trace, schedule); non-trivial = a removal cause (expiry, invalidation, rejection/eviction, weight-changing update) occurred before a MUST-SEE lookup, or the run contained an insert judged by the 'fits' rule, or a post-quiescence refill was checked",
     "C04": "distinct = hash of (config, op trace, schedule); non-trivial = resident weight reached max_capacity at a quiescent point at least once, or the write channel was found full",
     "C05": "distinct = hash of (config, op trace, schedule); non-trivial = a lookup at a reading >= t_mod + ttl of an entry that an earlier lookup in the same run had seen",
@@ -54,4 +60,4 @@ RULES = {
 ALL_PROBES = ["admit.victim_skipped", "admit.victim_vanished", "evict.skip_dirty", "evict.skip_missing",
               "write.channel_full", "read.dropped", "hk.lost", "hk.synced", "sync.repeat"]
 
-DETERMINISM_POPS = ["seq-mixed", "seq-expiry", "seq-policy", "seq-inval", "seq-callback", "pair", "seq-long"]
+DETERMINISM_POPS = ["thr-mixed", "thr-strict", "thr-iter", "thr-expiry", "burst", "seq-mixed", "seq-expiry", "seq-policy", "seq-inval", "seq-callback", "pair", "seq-long"]
